@@ -300,8 +300,15 @@ impl Spec {
             }
         }
         if raise {
+            // only an action scheduled by the CounterZero step itself takes precedence over the entered state's
+            // action; an action pending from an earlier event of the same call does not count as one
+            let pending = self.out[i].take();
             let changed = self.step(ms, i, Event::CounterZero, rng);
-            return (self.out[i].is_none(), changed);
+            let scheduled = self.out[i].is_some();
+            if !scheduled {
+                self.out[i] = pending;
+            }
+            return (!scheduled, changed);
         }
         (true, false)
     }
